@@ -86,7 +86,7 @@ pub fn instances() -> Vec<Inst> {
     for t in ["\"01\"", "'01'", "\"0_1\"", "\"1\"", "'1111_0000'"] {
         v.push(inst(t, "BIT_STRING"));
     }
-    for t in ["\"abc\"", "\"a\\\"b\"", "'a b'", "\"stdgates.inc\"", "\"é😀\"", "\"012\""] {
+    for t in ["\"abc\"", "\"a\\\"b\"", "'a b'", "\"stdgates.inc\"", "\"é😀\"", "\"012\"", "'a\\'b'", "'\\''", "\"a\\\\\"", "'a\\\\'", "'\"'", "\"'\""] {
         v.push(inst(t, "STRING"));
     }
     for t in ["/* c */", "/* /* n */ */", "/**/", "/* \n */"] {
